@@ -7,7 +7,7 @@
 (* The attack relation is built row by row so that TLC's workers share the *)
 (* enumeration.                                                            *)
 (***************************************************************************)
-EXTENDS Dung, TLC, Json, SequencesExt, FiniteSetsExt
+EXTENDS Meta, TLC, Json, SequencesExt, FiniteSetsExt
 CONSTANT N
 VARIABLES n, k, att
 vars == <<n, k, att>>
@@ -49,6 +49,8 @@ ComponentsPartition == Done => /\ UNION Components(af) = af.args
                                /\ \A p \in af.att : ComponentOf(af, p[1]) = ComponentOf(af, p[2])
 
 FastEqual == Done => \A s \in Sems : FamFast(af, s) = Fam(af, s)
+
+MetaFast == Done => FastEqualsTextbook(af)
 
 Export == Done => PrintT(<<"REF", ToJson([n |-> n, att |-> SetToSeq(att)])>>)
 =============================================================================
